@@ -64,7 +64,7 @@ def _case(arg):
 
     out = dict(hits={}, viol=[], inc=[], ok=0)
     junction = ["exact", "within", "outside", "exact", "within-user-rtol", "nf-mismatch", "exact", "outside-user-rtol"][i % 8]
-    errpat = ["both", "both", "none", "ini-only", "fin-only", "both"][(i // 8 + i) % 6]
+    errpat = ["both", "both", "none", "ini-only", "fin-only", "both"][(i // 8) % 6]  # independent of the junction variant
     nx = int(rng.integers(2, 6))
     xg = synth_f.make_xgrid(rng, nx, True)
     mu0 = float(rng.uniform(1.0, 2.0))
